@@ -127,6 +127,10 @@ func init() {
 			ruleRekeyGuards(c, "C02.R4")
 			c.Rule("C02.R5", "unbind reserves for immutable/never", 12)
 			rulePolicyEffect(c, "C02.R5")
+			c.Rule("C02.R7", "resync / release API clear node and uid under the pod's own key (reserveIP(key, key))", 4)
+			ruleReleasers(c, "C02.R7", "cloud")
+			c.Rule("C02.R8", "filter / bind / preempt / pod-ip sync never release or reserve", 4)
+			ruleSchedulingNeverReleases(c, "C02.R8")
 			c.Rule("C02.R6", "a failed re-key of the reserved ip is returned, never replaced by a fresh allocation", 5)
 			ruleFilterAllocErrors(c, "C02.R6")
 		}})
